@@ -142,6 +142,9 @@ fn violate(rep: &Report, cmds: &[&str], text: String, detail: J) {
 
 /// Runs the commands and compares the resulting board with the model position `want`.
 pub fn check(e: &mut Engine, rep: &Report, cmds: &[&str], want: &Pos) -> bool {
+    if crate::crumb::enabled() {
+        crate::crumb::set(&["c04-one", "--cmds", &cmds.join("|")]);
+    }
     match e.run(cmds) {
         Err(err) => {
             violate(rep, cmds, format!("{:?}: {}", cmds, err), J::Null);
